@@ -29,9 +29,12 @@ def build_roundtrip(args):
         dc = cio.build_chain(cz, c, order=order, rng=rng)
         d1 = dc.to_dict()
         obs["dict"] = cio.proj_dict(cz, d1)
-        dc2 = DecayChain.from_dict(copy.deepcopy(d1))
+        pristine = copy.deepcopy(d1)
+        dc2 = DecayChain.from_dict(d1)            # the dictionary itself, read twice: reading must leave it as it was
+        dc3 = DecayChain.from_dict(d1)
         obs["back"] = cio.proj_chain(cz, dc2)
-        obs["dict2_same"] = dc2.to_dict() == d1
+        obs["dict2_same"] = dc2.to_dict() == pristine and dc3.to_dict() == pristine and d1 == pristine \
+            and dc.to_dict() == pristine
         for dm in dc.decays.values():
             dm2 = DecayMode.from_dict(dm.to_dict())
             if dm2.bf != dm.bf or dict(dm2.daughters) != dict(dm.daughters) or dm2.metadata != dm.metadata \
@@ -109,7 +112,7 @@ def build_dict(args):
     real = {cz.names[d["m"]]: conc_entries(cz, d["entries"])}
     obs = {"rejected": False, "raised": "-", "back": {"mother": "?", "decays": []}}
     try:
-        dc = DecayChain.from_dict(copy.deepcopy(real))
+        dc = DecayChain.from_dict(real)
         obs["back"] = cio.proj_chain(cz, dc)
     except RuntimeError as e:
         obs["rejected"] = True
@@ -215,7 +218,7 @@ def parser_chain_checks(rng, n):
         d = p.build_decay_chains(top)
         tried += 1
         try:
-            d2 = DecayChain.from_dict(copy.deepcopy(d)).to_dict()
+            d2 = DecayChain.from_dict(d).to_dict()
             a = {m: canon_entries(v) for m, v in d.items()}
             b = {m: canon_entries(v) for m, v in d2.items()}
             if json.dumps(a, sort_keys=True, default=repr) != json.dumps(b, sort_keys=True, default=repr):
